@@ -82,7 +82,8 @@ def seqStep (sys : Sys) (line : String) : Sys × String :=
     if !allValid (b :: ackb ++ midb) then (sys, "skip") else
     match sys.streams.find? (·.k == parseNat k) with
     | none => (sys, "nostream")
-    | some _ =>
+    | some st =>
+      if st.ended || !st.reqOpen then (sys, "closed") else
       let secs := (splitList msecs ',').map parseInt
       let c : StreamCtl := { subscription := b, ackIds := ackb, modIds := midb,
                              modSecs := secs, maxMsgs := parseInt mm, maxBytes := parseInt mb }
@@ -96,7 +97,7 @@ def seqStep (sys : Sys) (line : String) : Sys × String :=
   | ["sclose", k] =>
     match sys.streams.find? (·.k == parseNat k) with
     | none => (sys, "nostream")
-    | some _ => (sys, "ok")
+    | some _ => (sys.streamCloseReq (parseNat k), "ok")
   | ["sdrop", k] =>
     match sys.streams.find? (·.k == parseNat k) with
     | none => (sys, "nostream")
